@@ -29,6 +29,7 @@ type replayCase struct {
 	Modules   *Case             `json:"modules,omitempty"`
 	Manifest  *manifestCase     `json:"manifest,omitempty"`
 	Workspace *wsCase           `json:"workspace,omitempty"`
+	History   *histCase         `json:"history,omitempty"`
 	Hint      map[string]string `json:"hint,omitempty"`
 }
 
@@ -318,6 +319,8 @@ func TestReplay(t *testing.T) {
 		report(t, r, checkManifestCase(ctx, *c.Manifest), c)
 	case c.Kind == "workspace" && c.Workspace != nil:
 		report(t, r, checkWorkspace(ctx, *c.Workspace), c)
+	case c.Kind == "history" && c.History != nil:
+		report(t, r, checkHistory(ctx, *c.History), c)
 	default:
 		t.Fatalf("harness: replay case of unknown kind %q", c.Kind)
 	}
